@@ -16,6 +16,8 @@ import (
 	"errors"
 	"fmt"
 	"io"
+	"os"
+	"os/exec"
 	"reflect"
 	"runtime"
 	"strconv"
@@ -78,14 +80,14 @@ func parseScript(str string) (script, bool) {
 	parts := strings.Split(str, ",")
 	for i, p := range parts {
 		if i == len(parts)-1 {
-			if p != "E" && p != "R" {
+			if p != "E" && p != "R" && p != "X" {
 				return s, false
 			}
 			s.end = p[0]
 			break
 		}
 		switch {
-		case p == "p" || p == "c":
+		case p == "p" || p == "c" || p == "w" || p == "g":
 			s.evs = append(s.evs, ev{kind: p[0]})
 		case strings.HasPrefix(p, "d") && len(p) > 1 && len(p)%2 == 1:
 			var data []byte
@@ -127,6 +129,10 @@ func (r *scriptReader) Read(b []byte) (int, error) {
 				r.p.Close()
 			}
 			r.closed++
+		case 'w':
+			waitStarted()
+		case 'g':
+			releaseHeld()
 		case 'd':
 			n := copy(b, e.data)
 			return n, nil
@@ -136,6 +142,48 @@ func (r *scriptReader) Read(b []byte) (int, error) {
 		return 0, errBroken
 	}
 	return 0, io.EOF
+}
+
+// ---- holding the timer callback (child process only) ------------------------------------------
+
+var (
+	hookStarted = make(chan struct{}, 64)
+	hookRelease = make(chan struct{})
+	hookDone    = make(chan struct{}, 64)
+	nHeld       int
+)
+
+func installHook() {
+	ansi.VerifEscTimerHook = func(phase int) {
+		if phase == 0 {
+			hookStarted <- struct{}{}
+			<-hookRelease
+		} else {
+			hookDone <- struct{}{}
+		}
+	}
+}
+
+func waitStarted() {
+	select {
+	case <-hookStarted:
+		nHeld++
+	case <-time.After(2 * time.Second):
+	}
+}
+
+func releaseHeld() {
+	for ; nHeld > 0; nHeld-- {
+		select {
+		case hookRelease <- struct{}{}:
+		case <-time.After(2 * time.Second):
+			continue
+		}
+		select {
+		case <-hookDone:
+		case <-time.After(2 * time.Second):
+		}
+	}
 }
 
 // ---- canonical items (same as C02) ---------------------------------------------------------
@@ -307,6 +355,9 @@ loop:
 			bad++
 		}
 	}
+	if s.end == 'X' {
+		releaseHeld()
+	}
 	flags := []string{}
 	if closed {
 		flags = append(flags, "closed")
@@ -354,6 +405,9 @@ func wantEsc(s script) int {
 // (the scheduler held the parser goroutine for 10 ms between two reads that the script issues back to
 // back; prompt arrival cannot be guaranteed from user space, only retried).  Fewer is never retried.
 func run(s script, consumer string) string {
+	if s.has('w') {
+		return runChild(s, consumer)
+	}
 	res := ""
 	for try := 0; try < 6; try++ {
 		panicked, _ := hx.Guard(func() { res = runOnce(s, consumer) })
@@ -368,6 +422,48 @@ func run(s script, consumer string) string {
 		mu.Unlock()
 	}
 	return res
+}
+
+// runChild runs one hook script in a child process: a panic in the timer goroutine (send on the
+// closed channel) cannot be recovered and would take the whole harness down.
+var childMu sync.Mutex
+
+func runChild(s script, consumer string) string {
+	childMu.Lock()
+	defer childMu.Unlock()
+	exe, err := os.Executable()
+	if err != nil {
+		return "! | no-exe"
+	}
+	cmd := exec.Command(exe)
+	cmd.Env = append(os.Environ(), "VERIF_C08_CHILD="+consumer+" "+s.String())
+	out, err := cmd.Output()
+	if err != nil {
+		msg := ""
+		if ee, ok := err.(*exec.ExitError); ok {
+			if strings.Contains(string(ee.Stderr), "send on closed channel") {
+				msg = "send-on-closed-channel"
+			} else if i := strings.Index(string(ee.Stderr), "panic:"); i >= 0 {
+				msg = strings.Fields(string(ee.Stderr[i:]) + " ?")[1]
+			}
+		}
+		return "! | " + msg
+	}
+	return strings.TrimSpace(string(out))
+}
+
+func childMain(arg string) {
+	f := strings.Fields(arg)
+	if len(f) != 2 {
+		os.Exit(3)
+	}
+	s, ok := parseScript(f[1])
+	if !ok {
+		os.Exit(3)
+	}
+	installHook()
+	fmt.Println(runOnce(s, f[0]))
+	time.Sleep(20 * time.Millisecond) // let a released callback crash us, if it is going to
 }
 
 // ---- cluster oracle (as in C02) ----------------------------------------------------------------
@@ -498,7 +594,13 @@ func genStream(rng *gen.Rng) []byte {
 	return []byte(sb.String())
 }
 
-func main() { hx.Main("C08", runC08) }
+func main() {
+	if arg := os.Getenv("VERIF_C08_CHILD"); arg != "" {
+		childMain(arg)
+		return
+	}
+	hx.Main("C08", runC08)
+}
 
 func emit(r *hx.Run, batch []kase, parallel int) {
 	type res struct{ op, impl string }
@@ -655,6 +757,26 @@ func runC08(r *hx.Run) error {
 		timed = append(timed, kase{s: script{evs: evs, end: 'E'}, consumer: consumers[i%len(consumers)], kind: "esc-timing-random"})
 	}
 	emit(r, timed, 24)
+	// (E) the timer callback delayed (held by the yield hook) past later reads / past the end of the loop
+	w, g := ev{kind: 'w'}, ev{kind: 'g'}
+	var hooked []kase
+	for i, sh := range []struct {
+		evs []ev
+		end byte
+	}{
+		{[]ev{d("\x1b"), w, g, d("[A")}, 'E'},        // released before the next bytes: a lone ESC
+		{[]ev{d("\x1b"), w, d("[A"), g}, 'E'},        // released after the sequence has been parsed
+		{[]ev{d("\x1b"), w, d("["), g, d("A")}, 'E'}, // released in the middle of the sequence
+		{[]ev{d("\x1b"), w, d("a"), g, d("b")}, 'E'},
+		{[]ev{d("\x1b"), w}, 'X'}, // released after the channel was closed
+		{[]ev{d("x\x1b"), w, d("[1;2m")}, 'X'},
+		{[]ev{d("\x1b]0;t\x1b"), w, d("\\"), g, d("z")}, 'E'},
+		{[]ev{d("\x1b"), w, d("\x1b"), w, d("[A"), g}, 'E'}, // two callbacks in flight
+		{[]ev{d("\x1b"), w, ev{kind: 'c'}, d("q"), g}, 'E'},
+	} {
+		hooked = append(hooked, kase{s: script{evs: sh.evs, end: sh.end}, consumer: consumers[i%len(consumers)], kind: "timer-callback-delayed"})
+	}
+	emit(r, hooked, 1)
 	r.Add("prompt-retries", int(retries))
 	return nil
 }
